@@ -1,0 +1,315 @@
+//! Verification hooks (feature `verif-hooks`, off by default).
+//!
+//! Nothing in here changes what the agent does: hooks count how often a
+//! labelled point was reached, optionally record an event, optionally sleep
+//! for a seeded random time, optionally run a callback registered by an
+//! in-process harness and optionally `abort()` the process at the n-th hit of
+//! a label (crash injection for subprocess harnesses).
+//!
+//! Configuration is programmatic (in-process harness) or through the
+//! environment (subprocess harness):
+//!   KLUKAI_VERIF_ABORT_AT=<label>:<n>   abort() at the n-th hit of <label>
+//!   KLUKAI_VERIF_LOG=<path>             append one line per event / point
+//!   KLUKAI_VERIF_DELAY=<label>:<permille>:<max_us>[,...]  ('*' = every label)
+//!   KLUKAI_VERIF_SEED=<u64>
+
+use std::{
+    collections::HashMap,
+    io::Write,
+    sync::{
+        Arc, Mutex, OnceLock,
+        atomic::{AtomicBool, AtomicI64, AtomicU64, Ordering},
+    },
+    time::Duration,
+};
+
+pub type Callback = Arc<dyn Fn(&str, u64, &str) + Send + Sync>;
+
+#[derive(Debug, Clone)]
+pub struct Event {
+    pub seq: u64,
+    pub label: String,
+    pub payload: String,
+    pub thread: u64,
+    pub task: u64,
+}
+
+#[derive(Default)]
+struct State {
+    counters: HashMap<String, u64>,
+    delays: HashMap<String, (u32, u64)>,
+    abort_at: Option<(String, u64)>,
+    callbacks: HashMap<String, Callback>,
+    record: bool,
+    log: Vec<Event>,
+    file: Option<std::fs::File>,
+    rng: u64,
+}
+
+static SEQ: AtomicU64 = AtomicU64::new(0);
+static ACTIVE: AtomicBool = AtomicBool::new(false);
+
+fn state() -> &'static Mutex<State> {
+    static S: OnceLock<Mutex<State>> = OnceLock::new();
+    S.get_or_init(|| {
+        let mut st = State {
+            rng: 0x9E37_79B9_7F4A_7C15,
+            ..Default::default()
+        };
+        if let Ok(v) = std::env::var("KLUKAI_VERIF_SEED")
+            && let Ok(seed) = v.parse::<u64>()
+        {
+            st.rng = seed | 1;
+        }
+        if let Ok(v) = std::env::var("KLUKAI_VERIF_ABORT_AT")
+            && let Some((label, n)) = v.rsplit_once(':')
+            && let Ok(n) = n.parse::<u64>()
+        {
+            st.abort_at = Some((label.to_string(), n));
+            ACTIVE.store(true, Ordering::SeqCst);
+        }
+        if let Ok(v) = std::env::var("KLUKAI_VERIF_LOG")
+            && let Ok(f) = std::fs::OpenOptions::new()
+                .create(true)
+                .append(true)
+                .open(v)
+        {
+            st.file = Some(f);
+            ACTIVE.store(true, Ordering::SeqCst);
+        }
+        if let Ok(v) = std::env::var("KLUKAI_VERIF_DELAY") {
+            for part in v.split(',') {
+                let mut it = part.split(':');
+                if let (Some(l), Some(p), Some(m)) = (it.next(), it.next(), it.next())
+                    && let (Ok(p), Ok(m)) = (p.parse(), m.parse())
+                {
+                    st.delays.insert(l.to_string(), (p, m));
+                    ACTIVE.store(true, Ordering::SeqCst);
+                }
+            }
+        }
+        Mutex::new(st)
+    })
+}
+
+fn thread_id() -> u64 {
+    thread_local! {
+        static ID: u64 = {
+            static NEXT: AtomicU64 = AtomicU64::new(1);
+            NEXT.fetch_add(1, Ordering::Relaxed)
+        };
+    }
+    ID.with(|i| *i)
+}
+
+fn task_id() -> u64 {
+    tokio::task::try_id()
+        .map(|id| id.to_string().parse::<u64>().unwrap_or(0))
+        .unwrap_or(0)
+}
+
+/// Turn everything on/off at once (cheap early-out when off).
+pub fn set_active(on: bool) {
+    let _ = state();
+    ACTIVE.store(on, Ordering::SeqCst);
+}
+
+pub fn set_seed(seed: u64) {
+    state().lock().unwrap().rng = seed | 1;
+}
+
+pub fn set_record(on: bool) {
+    state().lock().unwrap().record = on;
+    if on {
+        ACTIVE.store(true, Ordering::SeqCst);
+    }
+}
+
+/// `label` may be "*" to apply to every label without its own entry.
+pub fn set_delay(label: &str, permille: u32, max_us: u64) {
+    state()
+        .lock()
+        .unwrap()
+        .delays
+        .insert(label.to_string(), (permille, max_us));
+    ACTIVE.store(true, Ordering::SeqCst);
+}
+
+pub fn clear_delays() {
+    state().lock().unwrap().delays.clear();
+}
+
+pub fn set_callback(label: &str, cb: Callback) {
+    state()
+        .lock()
+        .unwrap()
+        .callbacks
+        .insert(label.to_string(), cb);
+    ACTIVE.store(true, Ordering::SeqCst);
+}
+
+pub fn clear_callbacks() {
+    state().lock().unwrap().callbacks.clear();
+}
+
+pub fn set_abort_at(label: &str, n: u64) {
+    state().lock().unwrap().abort_at = Some((label.to_string(), n));
+    ACTIVE.store(true, Ordering::SeqCst);
+}
+
+pub fn hits(label: &str) -> u64 {
+    state()
+        .lock()
+        .unwrap()
+        .counters
+        .get(label)
+        .copied()
+        .unwrap_or(0)
+}
+
+pub fn counters() -> HashMap<String, u64> {
+    state().lock().unwrap().counters.clone()
+}
+
+pub fn reset_counters() {
+    state().lock().unwrap().counters.clear();
+}
+
+pub fn take_log() -> Vec<Event> {
+    std::mem::take(&mut state().lock().unwrap().log)
+}
+
+// returns the delay to apply (if any); everything else happens inside
+fn hit(label: &str, payload: &str) -> Option<Duration> {
+    if !ACTIVE.load(Ordering::Relaxed) {
+        return None;
+    }
+    let (delay, cb, n) = {
+        let mut st = state().lock().unwrap();
+        let n = {
+            let c = st.counters.entry(label.to_string()).or_insert(0);
+            *c += 1;
+            *c
+        };
+        let seq = SEQ.fetch_add(1, Ordering::SeqCst);
+        if st.record || st.file.is_some() {
+            let ev = Event {
+                seq,
+                label: label.to_string(),
+                payload: payload.to_string(),
+                thread: thread_id(),
+                task: task_id(),
+            };
+            if let Some(f) = st.file.as_mut() {
+                let _ = writeln!(
+                    f,
+                    "{}\t{}\t{}\t{}\t{}",
+                    ev.seq, ev.label, ev.thread, ev.task, ev.payload
+                );
+            }
+            if st.record {
+                st.log.push(ev);
+            }
+        }
+        if let Some((l, at)) = st.abort_at.as_ref()
+            && l == label
+            && *at == n
+        {
+            if let Some(f) = st.file.as_mut() {
+                let _ = writeln!(f, "{seq}\tverif.abort\t0\t0\t{label}:{n}");
+                let _ = f.flush();
+            }
+            std::process::abort();
+        }
+        let delay = st
+            .delays
+            .get(label)
+            .or_else(|| st.delays.get("*"))
+            .copied()
+            .and_then(|(permille, max_us)| {
+                // xorshift64*
+                let mut x = st.rng;
+                x ^= x >> 12;
+                x ^= x << 25;
+                x ^= x >> 27;
+                st.rng = x;
+                let r = x.wrapping_mul(0x2545_F491_4F6C_DD1D);
+                if (r % 1000) as u32 >= permille || max_us == 0 {
+                    None
+                } else {
+                    Some(Duration::from_micros((r >> 20) % max_us + 1))
+                }
+            });
+        (delay, st.callbacks.get(label).cloned(), n)
+    };
+    if let Some(cb) = cb {
+        cb(label, n, payload);
+    }
+    delay
+}
+
+/// Synchronous hook point: count, record, callback, maybe sleep (thread), maybe abort.
+pub fn point(label: &str) {
+    if let Some(d) = hit(label, "") {
+        std::thread::sleep(d);
+    }
+}
+
+/// Synchronous hook point with a payload.
+pub fn event(label: &str, payload: impl FnOnce() -> String) {
+    if !ACTIVE.load(Ordering::Relaxed) {
+        return;
+    }
+    if let Some(d) = hit(label, &payload()) {
+        std::thread::sleep(d);
+    }
+}
+
+/// Asynchronous hook point (placed at existing suspension points).
+pub async fn apoint(label: &str) {
+    if let Some(d) = hit(label, "") {
+        tokio::time::sleep(d).await;
+    }
+}
+
+/// Asynchronous hook point with a payload.
+pub async fn aevent(label: &str, payload: impl FnOnce() -> String) {
+    if !ACTIVE.load(Ordering::Relaxed) {
+        return;
+    }
+    if let Some(d) = hit(label, &payload()) {
+        tokio::time::sleep(d).await;
+    }
+}
+
+/// A named gauge (e.g. queue length); readable by an in-process harness.
+pub struct Gauge(AtomicI64);
+
+impl Gauge {
+    pub const fn new() -> Self {
+        Self(AtomicI64::new(0))
+    }
+    pub fn set(&self, v: i64) {
+        self.0.store(v, Ordering::SeqCst)
+    }
+    pub fn add(&self, v: i64) -> i64 {
+        self.0.fetch_add(v, Ordering::SeqCst) + v
+    }
+    pub fn get(&self) -> i64 {
+        self.0.load(Ordering::SeqCst)
+    }
+}
+
+impl Default for Gauge {
+    fn default() -> Self {
+        Self::new()
+    }
+}
+
+/// number of `WriteConn` values alive in this process
+pub static LIVE_WRITERS: Gauge = Gauge::new();
+/// `handle_changes`: changesets sitting in its queue / batches in flight
+pub static HC_QUEUE: Gauge = Gauge::new();
+pub static HC_INFLIGHT: Gauge = Gauge::new();
+/// `handle_changes`: number of loop iterations started (liveness / idleness probe)
+pub static HC_LOOPS: Gauge = Gauge::new();
